@@ -4,6 +4,7 @@ import (
 	"fmt"
 	"go/token"
 	"go/types"
+	"morlockverif/checker/internal/core"
 	"sort"
 	"strings"
 
@@ -303,14 +304,14 @@ func c07HashShape(c *Ctx, b *boardModel, zhash *ssa.Function, rule string) bool 
 // c07Seed checks who stores node.hash and with what.
 func c07Seed(c *Ctx, b *boardModel, zmove, zhash *ssa.Function) {
 	r := c.R
-	nodeT := c.P.NamedType("pkg/board", "node")
+	nodeT := c.namedType("pkg/board", "node")
 	if nodeT == nil {
 		r.Undecided("R07-seed", "anchor:pkg/board.node", "", "", "type not found")
 		return
 	}
-	newBoard := c.P.Func("pkg/board", "", "NewBoard")
-	push := c.P.Func("pkg/board", "Board", "PushMove")
-	fork := c.P.Func("pkg/board", "Board", "Fork")
+	newBoard := c.find("pkg/board", "", "NewBoard")
+	push := c.find("pkg/board", "Board", "PushMove")
+	fork := c.find("pkg/board", "Board", "Fork")
 	seen := map[string]bool{}
 	for _, fs := range allFieldStores(c.P) {
 		if fs.Named == nil || fs.Named.Obj() != nodeT.Obj() || fs.Field != "hash" {
@@ -336,7 +337,7 @@ func c07Seed(c *Ctx, b *boardModel, zmove, zhash *ssa.Function) {
 			if okv {
 				// the loads of b.current used by the call must precede the store that advances b.current
 				for _, fs2 := range allFieldStores(c.P) {
-					if fs2.Fn == push && fs2.Field == "current" && fs2.Named != nil && fs2.Named.Obj().Name() == "Board" {
+					if fs2.Fn == push && fs2.Field == "current" && fs2.Named != nil && core.ObjName(fs2.Named.Obj()) == "Board" {
 						if !instrDominates(call, fs2.Instr) {
 							okv = false
 							detail = "zt.Move is evaluated after b.current was advanced (hashes with the new position)"
@@ -382,7 +383,7 @@ func c07Keys(c *Ctx, b *boardModel, rule string) bool {
 			d = append(d, a.Len())
 			t = a.Elem()
 		}
-		dims[st.Field(i).Name()] = d
+		dims[core.FieldName(st.Field(i))] = d
 	}
 	numRights := int64(16)
 	if v, ok := constVal(c.P, "pkg/board", "FullCastingRights"); ok {
